@@ -1,4 +1,5 @@
 """C26 -- numerical integration (quad / quadts / quadgl, 1 to 3 dimensions) is accurate for well-behaved integrands."""
+import os
 from fractions import Fraction
 
 from .. import exact
@@ -13,7 +14,10 @@ RULE = ("Cases = (integrand with a closed-form integral, HISTORY of 2..7 quad ca
         "poles at distance >= L/4 from the path, Gaussians c x^k exp(-alpha (x-m)^2); in 2 and 3 dimensions sums of products "
         "of such factors (separable and non-separable sums) and ridge functions g(a.x + phi), g in {exp, sin, cos, u^k} "
         "(non-separable). Oscillation/variation is moderate: (|a|+|b|) * L <= 20 on finite paths, |b| <= 2|a| on infinite "
-        "ones, sqrt(alpha) * L <= 8. Paths: finite real intervals (small dyadic, thirds/sevenths/tenths rounded to 24..200 "
+        "ones, sqrt(alpha) * L <= 8; finite endpoints and split points of infinite paths lie within 8 decay lengths of the "
+        "peaks; Gauss-Legendre on infinite paths only with decay rates >= 1 and <= 128 bits (documented weakness of the "
+        "rule there); multidimensional integrands have magnitude O(1) on boxes inside [-2, 2]^n (cost: quad's stopping "
+        "rule is an absolute eps/8 at every nesting level). Paths: finite real intervals (small dyadic, thirds/sevenths/tenths rounded to 24..200 "
         "bits, wide up to 5000, narrow down to 2^-30, far from the origin), reversed (b < a), with interior split points "
         "(also outside [a, b]), polygonal complex paths including closed contours for the entire integrands, [u, inf], "
         "[-inf, u], [-inf, inf] and their reversals for exponentially decaying integrands, boxes in 2-3 dimensions (also "
@@ -39,6 +43,7 @@ ASSUMPTIONS = ["mpmath 1.3.0 (frozen copy `mpref`) evaluates exp, sin, cos, atan
                "the closed-form antiderivatives (integration by parts for x^k e^(lambda x) with complex lambda, atan, erf, "
                "incomplete gamma, alternating corner sums for ridge functions) are transcribed correctly",
                "CPython Fraction arithmetic"]
+_DEBUG = bool(os.environ.get("C26_DEBUG"))      # print the inconclusive calls (development aid)
 TECHNIQUE = ("property-based testing (Hypothesis): grammar of integrands with closed-form integrals, generated call "
              "histories over the cached quadrature rules, closed-form oracle, metamorphic relations")
 
@@ -380,6 +385,25 @@ def gen_case(d, shard, tier):
     return _gen_nd(d)
 
 
+def _mag_bound(terms, X, L):
+    """rough float bound of the integral of |f| (generator side, cost control only)"""
+    import math
+    X = float(X)
+    tot = 0.0
+    for t in terms:
+        at = t["fac"][0]
+        c = abs(float(_fr(t["c"])))
+        if at["t"] == "pet":
+            v = sum(abs(float(_fr(ck))) * X ** k for k, ck in enumerate(at["poly"]))
+            v *= math.exp(min(600.0, abs(float(_fr(at["a"]))) * X + abs(float(_fr(at["b"]))) * 0))
+        elif at["t"] == "rat":
+            v = 1.0 / float(_fr(at["w"])) ** 2
+        else:
+            v = max(1.0, X) ** at["k"]
+        tot += c * v
+    return tot * float(L)
+
+
 def _gen_fin(d):
     u, v, icls = _interval(d)
     fu, fv = _fr(u), _fr(v)
@@ -400,6 +424,10 @@ def _gen_fin(d):
         kinds.append(k)
     paths = [{"pts": [[["r", u], ["r", v]]], "of": None}]
     cap = d.weighted([(10, 128), (4, 256), (1, 500)])
+    if _mag_bound(terms, X, L) > 4096:
+        # quad's stopping criterion is absolute (eps/8): integrals of large magnitude always run to the maximal
+        # degree, which costs seconds above 128 bits (cost control, the values are still checked below that)
+        cap = 128
 
     def new_path(dd):
         # a different interval inside the hull of the first one (so that the integrand stays in its domain)
@@ -485,6 +513,8 @@ def _gen_cpath(d):
         kinds.append(k)
     paths = [{"pts": [pts], "of": None}]
     cap = d.weighted([(10, 128), (3, 256), (1, 500)])
+    if _mag_bound(terms, X, L) > 4096:
+        cap = 128
     steps = _history(d, paths, cap, 5 if cap <= 128 else 3, None)
     return {"dim": 1, "terms": terms, "paths": paths, "steps": steps,
             "cls": "1d:cpath%s:%s" % (":closed" if closed else "", "+".join(sorted(set(kinds))))}
@@ -517,7 +547,7 @@ def _small_coef(d):
 
 def _gen_nd(d):
     dim = d.weighted([(7, 2), (3, 3)])
-    rule = d.weighted([(1, "ts"), (2, "gl")]) if dim == 2 else d.weighted([(1, "ts"), (6, "gl")])
+    rule = d.weighted([(1, "ts"), (2, "gl")]) if dim == 2 else d.weighted([(1, "ts"), (9, "gl")])
     ivs = []
     infdim = d.int(0, dim - 1) if (dim == 2 and d.int(0, 5) == 0) else None
     for i in range(dim):
@@ -528,6 +558,8 @@ def _gen_nd(d):
     terms, kinds = [], []
     fam = d.weighted([(4, "prod"), (4, "ridge"), (3, "mixed")]) if infdim is None else "prod"
     nterms = d.weighted([(3, 1), (4, 2), (2, 3)]) if dim == 2 else d.weighted([(3, 1), (2, 2)])
+    if dim == 3 and rule == "ts":
+        nterms = 1                      # nested tanh-sinh in 3 dimensions costs 10^5 .. 10^7 evaluations
     tmax = 48 if dim == 2 else 24
     for ti in range(nterms):
         if fam == "ridge" or (fam == "mixed" and ti == 0):
@@ -577,7 +609,7 @@ def _gen_nd(d):
     if dim == 2:
         cap = d.weighted([(8, 64), (3, 110)]) if rule == "ts" else d.weighted([(6, 64), (4, 128), (1, 200)])
     else:
-        cap = d.weighted([(6, 45), (2, 64)]) if rule == "gl" else 40
+        cap = d.weighted([(6, 45), (2, 64)]) if rule == "gl" else 32
     steps = _history(d, paths, cap, 3 if dim == 2 else 2, None, rule=rule, allow_cls=False, strict=True)
     return {"dim": dim, "terms": terms, "paths": paths, "steps": steps,
             "cls": "%dd:%s%s:%s" % (dim, rule, ":inf" if infdim is not None else "", "+".join(sorted(set(kinds))))}
@@ -686,10 +718,6 @@ def _point_mp(mp, pt, py):
 
 
 # ------------------------------------------------------------------------------------------------ oracle (mpref side)
-
-import os as _os
-_DEBUG = bool(_os.environ.get("C26_DEBUG"))
-
 
 class _Reject(Exception):
     pass
